@@ -190,12 +190,15 @@ func init() {
 		},
 		"verif:verifReach": func(ex *Exec, st *State, fn *ssa.Function, args []Value) Value {
 			label := argString(args[0])
-			ex.res.Reached[label]++
 			st.reached = append(st.reached, label)
+			if ex.inPre(st) {
+				return nil // only the main harness of a history item counts (vacuity, witness)
+			}
+			ex.res.Reached[label]++
 			if ex.res.Witness == nil {
 				res, vals := ex.modelFor(st, nil)
 				if res == "sat" {
-					ex.res.Witness = &Finding{Harness: ex.harness.Name(), Pkg: ex.res.Pkg, Shape: ex.shape, Kind: "reach", Label: label, Values: vals, MapDesc: ex.cfg.MapDesc}
+					ex.res.Witness = &Finding{Pre: ex.pre, Harness: ex.harness.Name(), Pkg: ex.res.Pkg, Shape: ex.shape, Kind: "reach", Label: label, Values: vals, MapDesc: ex.cfg.MapDesc}
 				}
 			}
 			return nil
